@@ -143,7 +143,7 @@ pub fn check_opt(case: &OptCase, st: &mut Stats) -> Result<(), String> {
     let base = case.base.clone();
     let mut with = base.clone();
     let c = census(&case.doc.blocks);
-    let applies: bool;
+    let mut applies: bool;
     match &case.opt {
         Opt::MaxWrap(m) => {
             with.max_wrap = Some(*m);
@@ -195,6 +195,12 @@ pub fn check_opt(case: &OptCase, st: &mut Stats) -> Result<(), String> {
             return Err(format!("{}\nhtml={}", x, short(&html, 800)));
         }
     }
+    // With allow_width_overflow a block can be wider than the requested width; a maximum wrap
+    // width then "is at least the width" when it is at least the widest line of the base rendering.
+    if let (Opt::MaxWrap(m), true, Rend::Ok(s)) = (&case.opt, base.overflow, &a) {
+        let widest = s.lines().map(line_width).max().unwrap_or(0);
+        applies = *m < w.max(widest);
+    }
     let ctx = |what: &str| -> String {
         format!(
             "{} (option {:?}, w={}, base={})\n without={}\n with   ={}\nhtml={}",
@@ -222,7 +228,10 @@ pub fn check_opt(case: &OptCase, st: &mut Stats) -> Result<(), String> {
         Opt::MaxWrap(m) => {
             // m < w here
             if let Rend::Ok(s) = &b {
-                if c.tables == 0 && !base.pad && !base.footnotes_on() {
+                if base.overflow {
+                    // lines may exceed any bound where a block overflows; only "m >= w changes nothing" is asserted
+                    st.class("MaxWrap:overflow_base(bound not asserted)");
+                } else if c.tables == 0 && !base.pad && !base.footnotes_on() {
                     for l in s.lines() {
                         let lw = line_width(l);
                         let pw = prefix_width(l);
@@ -232,7 +241,7 @@ pub fn check_opt(case: &OptCase, st: &mut Stats) -> Result<(), String> {
                     }
                 }
                 if let [Block::P(..)] = case.doc.blocks.as_slice() {
-                    if !base.footnotes_on() && !base.pad {
+                    if !base.footnotes_on() && !base.pad && !base.overflow {
                         let r = render(&base, html.as_bytes(), (*m).min(w));
                         if r != b {
                             return Err(ctx(&format!("a single paragraph under max_wrap_width({}) differs from rendering at width {}: {}", m, (*m).min(w), d(&r))));
@@ -363,7 +372,16 @@ pub fn check_opt(case: &OptCase, st: &mut Stats) -> Result<(), String> {
                     }
                     m
                 };
-                if c.tables == 0 && count(x) != count(y) {
+                // a link without any text renders nothing - until the markers of an empty <em> / <code>
+                // inside it give it content, and with it its brackets and reference
+                let textless_link = {
+                    let dom = crate::odom::parse(html.as_bytes());
+                    let r = dom.elements().any(|n| dom.name(n) == Some("a") && dom.attr(n, "href").is_some() && !dom.has_visible_text(n));
+                    r
+                };
+                if textless_link {
+                    st.class("Decorate:textless_link(marker count not asserted)");
+                } else if c.tables == 0 && count(x) != count(y) {
                     return Err(ctx("do_decorate added something other than `*` and backquote markers"));
                 }
             }
@@ -426,6 +444,8 @@ fn opt_case(g: G) -> BoxedStrategy<OptCase> {
     let base = prop_oneof![
         3 => deco_std().prop_map(CfgSpec::of),
         2 => cfg_bounded().prop_map(|mut c| { c.min_wrap = None; c }),
+        // bases with allow_width_overflow and a minimum wrap width: blocks can be wider than the width
+        1 => (cfg_bounded(), prop::option::weighted(0.6, 0usize..14)).prop_map(|(mut c, k)| { c.overflow = true; c.min_wrap = k; c }),
     ];
     let opt = prop_oneof![
         2 => (1usize..130).prop_map(Opt::MaxWrap),
